@@ -40,39 +40,11 @@ RULE = (
 # helpers
 # ---------------------------------------------------------------------------
 
-def canon(x):
-    """nested, comparable representation of a result"""
-    if dataclasses.is_dataclass(x) and not isinstance(x, type):
-        return {f.name: canon(getattr(x, f.name)) for f in dataclasses.fields(x)}
-    if isinstance(x, dict):
-        return {str(k): canon(v) for k, v in x.items()}
-    if isinstance(x, tuple) and hasattr(x, '_fields'):
-        return {k: canon(getattr(x, k)) for k in x._fields}
-    if isinstance(x, (list, tuple)):
-        return [canon(v) for v in x]
-    if isinstance(x, np.ndarray):
-        return x
-    if isinstance(x, (int, float, complex, str, bool, type(None), np.generic)):
-        return x
-    if hasattr(x, 'calculate_mapping'):
-        return type(x).__name__
-    return repr(x)
-
-
-def same(a, b):
-    if isinstance(a, dict):
-        return isinstance(b, dict) and a.keys() == b.keys() and \
-            all(same(a[k], b[k]) for k in a)
-    if isinstance(a, list):
-        return isinstance(b, list) and len(a) == len(b) and \
-            all(same(x, y) for x, y in zip(a, b))
-    if isinstance(a, np.ndarray) or isinstance(b, np.ndarray):
-        a, b = np.asarray(a), np.asarray(b)
-        return a.shape == b.shape and a.dtype == b.dtype and \
-            np.array_equal(a, b, equal_nan=True)
-    if isinstance(a, float) and isinstance(b, float) and a != a and b != b:
-        return True
-    return a == b
+from pbv.valueproto import canon, same  # noqa: E402
+from pbv.valueproto import entry_name as _entry_name  # noqa: E402
+from pbv.valueproto import fresh as _fresh  # noqa: E402
+from pbv.valueproto import reachable_arrays as _reachable_arrays  # noqa: E402
+from pbv.valueproto import refilled_buffer as _refilled_buffer_protocol  # noqa: E402
 
 
 def has_array(c):
@@ -557,71 +529,12 @@ class PurityViolation(Violation):
     pass
 
 
-def _reachable_arrays(obj, out, seen, depth=0):
-    if id(obj) in seen or depth > 4:
-        return
-    if isinstance(obj, np.ndarray):
-        seen.add(id(obj))
-        if obj.dtype != object:
-            out.append(obj)
-    elif isinstance(obj, dict):
-        seen.add(id(obj))
-        for v in obj.values():
-            _reachable_arrays(v, out, seen, depth + 1)
-    elif isinstance(obj, (list, tuple)):
-        seen.add(id(obj))
-        for v in obj:
-            _reachable_arrays(v, out, seen, depth + 1)
-    elif dataclasses.is_dataclass(obj) and not isinstance(obj, type):
-        seen.add(id(obj))
-        for f in dataclasses.fields(obj):
-            _reachable_arrays(getattr(obj, f.name, None), out, seen, depth + 1)
-    elif type(obj).__module__.startswith('pbv') and hasattr(obj, '__dict__'):
-        # argument bundles of the harness (mm.Case: observations, start,
-        # saliency, masks, fixed covariances ...)
-        seen.add(id(obj))
-        for v in vars(obj).values():
-            _reachable_arrays(v, out, seen, depth + 1)
-
-
-def _entry_name(fn):
-    name = getattr(fn, '__qualname__', getattr(fn, '__name__', type(fn).__name__))
-    return name.replace('<locals>.', '').replace('<lambda>', 'lambda')
-
-
-def _fresh(obj, memo, depth=0):
-    """new array objects with the same content; everything that is not data
-    (modules, functions, trainers, aligners ...) is passed on as it is"""
-    if id(obj) in memo:
-        return memo[id(obj)]
-    if depth > 5:
-        return obj
-    if isinstance(obj, np.ndarray):
-        new = obj.copy(order='K')
-    elif isinstance(obj, dict):
-        new = {k: _fresh(v, memo, depth + 1) for k, v in obj.items()}
-    elif isinstance(obj, list):
-        new = [_fresh(v, memo, depth + 1) for v in obj]
-    elif isinstance(obj, tuple) and not hasattr(obj, '_fields'):
-        new = tuple(_fresh(v, memo, depth + 1) for v in obj)
-    elif (dataclasses.is_dataclass(obj) and not isinstance(obj, type)) or (
-            type(obj).__module__.startswith('pbv') and hasattr(obj, '__dict__')
-            and not callable(obj)):
-        import copy
-        new = copy.copy(obj)
-        for k, v in list(vars(obj).items()):
-            object.__setattr__(new, k, _fresh(v, memo, depth + 1))
-    else:
-        new = obj
-    memo[id(obj)] = new
-    return new
-
-
 class PurityCtx:
     """stands in for core.Ctx while a host sub-check runs"""
 
     def __init__(self, real, host):
         self.real = real
+        real.value_protocol = False      # this context runs its own, on every call
         self.host = host
         self.calls = 0
         self.array_calls = 0
@@ -721,70 +634,15 @@ class PurityCtx:
         return r1
 
     def _refilled_buffer(self, fn, args, kwargs, passed, state, name):
-        """results are a function of the argument *values*: a caller's array
-        that is refilled in place between two calls must give what a fresh
-        array with the same content gives (no identity-keyed caches).  One
-        passed floating point array is overwritten in place (reversed along
-        its first axis, or scaled by 1.5), the call is repeated with the very
-        same objects and with deep copies of all arguments (closure cells of
-        the host's lambda included); outcomes must agree.  Whether the new
-        content is meaningful input does not matter - both calls see it."""
-        import copy
-        import pb_bss._verif as hook
-        cands = [a for a, _, _, _, w in passed
-                 if w and a.dtype.kind in 'fc' and a.ndim >= 1 and a.size >= 2]
-        if not cands:
+        arrays = [a for a, _, _, _, w in passed if w]
+        detail = _refilled_buffer_protocol(fn, args, kwargs, arrays, state,
+                                           self.array_calls // 2)
+        if detail is None:
             return
-        pick = cands[(self.array_calls // 2) % len(cands)]
-        saved = pick.copy()
-        if (self.array_calls // 2) % 3 == 2 or pick.shape[0] < 2:
-            pick *= 1.5
-        else:
-            pick[...] = pick[::-1].copy()
-        if np.array_equal(pick, saved):
-            pick[...] = saved
-            return
-
-        def outcome(f, a, k):
-            np.random.set_state(state)
-            try:
-                # (a snapshot: the result may alias the argument that is
-                # restored afterwards)
-                return ('ok', _fresh(canon(f(*a, **k)), {}))
-            except Exception as e:  # noqa
-                return ('raises', type(e).__name__)
-
-        data_types = (np.ndarray, list, tuple, dict)
-        cells = [c for c in (getattr(fn, '__closure__', None) or ())]
-        old_cells = []
-        hook_enabled, hook.ENABLED = hook.ENABLED, False
-        try:
-            same_objects = outcome(fn, args, kwargs)
-            memo = {}
-            fresh_args = _fresh(args, memo)
-            fresh_kwargs = _fresh(kwargs, memo)
-            for c in cells:
-                try:
-                    v = c.cell_contents
-                except ValueError:
-                    continue
-                new = _fresh(v, memo)
-                if new is not v:
-                    old_cells.append((c, v))
-                    c.cell_contents = new
-            fresh_objects = outcome(fn, fresh_args, fresh_kwargs)
-        finally:
-            for c, v in old_cells:
-                c.cell_contents = v
-            hook.ENABLED = hook_enabled
-            pick[...] = saved
         self.refilled = getattr(self, 'refilled', 0) + 1
-        if same_objects[0] != fresh_objects[0] or not same(same_objects[1], fresh_objects[1]):
-            raise PurityViolation(
-                'result-depends-on-array-identity-not-content',
-                f'{name}: after refilling an argument array in place the call returns '
-                f'{same_objects[0]} / a fresh array with the same content {fresh_objects[0]} '
-                f'with different values (host {self.host})', entry=name)
+        if detail:
+            raise PurityViolation('result-depends-on-array-identity-not-content',
+                                  f'{name}: {detail} (host {self.host})', entry=name)
 
 
 _HOSTS = None
